@@ -11,6 +11,7 @@ from __future__ import annotations
 import ast
 
 from sa import mutate as M
+from sa import pattern as PT
 from sa.ctx import Ctx
 from sa.layout import ints, read_atoms, write_atoms
 from sa.loader import call_name, norm, own_nodes, parent
@@ -132,11 +133,18 @@ def rule_codec(ctx: Ctx, rep: Report) -> None:
     ci = ctx.cls(f"{S}.Sig")
     w, r = ints(write_atoms(ctx, ci.methods["serialize"])), ints(read_atoms(ctx, ci.methods["parse"]))
     rep.ob(rule, "serialize", [a.subject for a in w] == ["self.r", "self.s"] and all(a.endian == "big" and a.signed is False for a in w), ci.methods["serialize"].where(), f"{[(a.subject, a.show()) for a in w]}")
-    rep.ob(rule, "parse", [a.subject for a in r] == ["r", "s"] and all(a.endian == "big" and a.signed is False for a in r), ci.methods["parse"].where(), f"{[(a.subject, a.show()) for a in r]}")
-    rep.ob(rule, "length", ctx.const(S, "_REQUIRED_LENGTH") == 64, "btclib/ecc/ssa.py:1", "_REQUIRED_LENGTH = 64")
     p = ci.methods["parse"]
-    sl = [norm(n) for n in own_nodes(p.node) if isinstance(n, ast.Subscript) and norm(n.value) == "sig_bin"]
-    rep.ob(rule, "parse:slices", set(sl) == {"sig_bin[:ec.p_size]", "sig_bin[ec.p_size:]"}, p.where(), f"slices {sorted(sl)}")
+    mp: dict[str, str] = {}
+    sol = PT.solve(p.node, ["$buf = $st.read(_REQUIRED_LENGTH)", "$r = int.from_bytes($buf[:$ec.p_size], byteorder='big', signed=False)",
+                            "$s = int.from_bytes($buf[$ec.p_size:], byteorder='big', signed=False)"], mp)
+    if sol:
+        mp = sol[1]
+    ctor = [c for c in own_nodes(p.node) if isinstance(c, ast.Call) and norm(c.func) == "cls" and len(c.args) >= 2]
+    okc = bool(sol) and bool(ctor) and [norm(a) for a in ctor[0].args[:2]] == [mp.get("r"), mp.get("s")]
+    rep.ob(rule, "parse", okc and len(r) == 2 and all(a.endian == "big" and a.signed is False for a in r), p.where(), "r = first p_size bytes, s = the rest, big-endian unsigned, handed to the constructor in that order")
+    rep.ob(rule, "length", ctx.const(S, "_REQUIRED_LENGTH") == 64, "btclib/ecc/ssa.py:1", "_REQUIRED_LENGTH = 64")
+    sl = [norm(n) for n in own_nodes(p.node) if isinstance(n, ast.Subscript) and norm(n.value) == mp.get("buf", "sig_bin")]
+    rep.ob(rule, "parse:slices", len(sl) == 2, p.where(), f"the 64 bytes are sliced exactly twice: {sorted(sl)}")
 
 
 def rule_signer_config(ctx: Ctx, rep: Report) -> None:
